@@ -9,6 +9,7 @@ def sig(ev):
 
 def run(ck):
     ck.tlc_mc("StoreMC", "StoreMC.cfg", workers=4)
+    ck.tlaps("StoreProof")    # window bound and suffix-of-arrivals for every cap and every history (TLAPS)
     repo = os.environ.get("VERIF_REPO", "/repo")
     src = open(os.path.join(repo, "cmd/collector/collector.go")).read()
     m = re.search(r"maxFlowRecords\s*=\s*(\d+)", src)
@@ -46,7 +47,7 @@ def run(ck):
                        "expected renderings of values are produced by the driver from the values it generated (strconv / its own formatting), not from the library's getters"]
     ck.finish(rule="histories of 1.5 x cap (quick, x2) / 5 x cap (thorough, x4) arrivals of template and data messages with 1-3 records of 4-14 fields covering every data type the registry has, interleaved with GET /records (counts absent/0/1/.../cap+1/huge/negative/non-numeric; formats absent/json/text/invalid; other methods) and /reset requests; "
                    "distinct = operations",
-              technique="TLA+ Store spec (TLC exhaustive, cap 3) + TLC trace validation of an in-package driver run with the real cap")
+              technique="TLA+ Store spec (TLC exhaustive, cap 3; TLAPS proof of the bound and of suffix-of-arrivals for every cap) + TLC trace validation of an in-package driver run with the real cap")
 
 def replay(path):
     vlib.replay(PROP, MODULE, path)
